@@ -39,3 +39,31 @@ def vecPos (rstepOff n k : Nat) : Nat :=
   Gen.ExtESmrySeek.vecPos rstepOff (sizeOf n .real) (sizeOf n .inte) k
 
 end OpmVerif.ExtESmry
+
+namespace OpmVerif.ExtESmry
+
+/-! ### restart chains: how much of a base run belongs to the history -/
+
+/-- the `find_if` of the `ExtESmry` constructor: position of the first RSTEP entry at which
+the running count of report-step flags, started at `c0`, equals `target` (`length` if none). -/
+def cutIndex (c0 target : Int) : List Int → Nat
+  | [] => 0
+  | v :: vs =>
+    let c := if v = 1 then c0 + 1 else c0
+    if c = target then 0 else 1 + cutIndex c target vs
+
+/-- the counter's start value as the code has it (regenerated): the report step the base run
+was itself restarted from, or zero. -/
+def countStart (ownRestart : Int) : Int :=
+  if Gen.ExtESmrySeek.chainCountsFromOwnRestart then ownRestart else 0
+
+/-- time steps `0 … to_ind` of a base run that go into the combined history. -/
+def basePart {α : Type} (ownRestart rstNum : Int) (rstep : List Int) (steps : List α) : List α :=
+  steps.take (cutIndex (countStart ownRestart) rstNum rstep + 1)
+
+/-- number of report-step flags. -/
+def ones : List Int → Nat
+  | [] => 0
+  | v :: vs => (if v = 1 then 1 else 0) + ones vs
+
+end OpmVerif.ExtESmry
